@@ -228,6 +228,19 @@ def all_entries(rng, reps):
         g.update(c02_extra.entries(rng, reps))
     except ImportError:
         pass
+    # every operator form is separate code: rewrite a third of the field / group operator requests into another equivalent
+    # form (value / reference operands, compound assignment, scalar on the left)
+    for k_, (L_, cf_) in list(g.items()):
+        L2 = []
+        for ln in L_:
+            t = ln.split(" ", 3)
+            if len(t) == 4 and t[0] in ("f", "g") and rng.randrange(3) == 0:
+                forms = (F_FORMS if t[0] == "f" else G_FORMS).get(t[2])
+                if forms:
+                    t[2] = rng.choice(forms)
+                    ln = " ".join(t)
+            L2.append(ln)
+        g[k_] = (L2, cf_)
     g["selftest"] = (["selftest leak_branch !05", "selftest leak_index !07", "selftest noleak !09"], None)
     return g
 
